@@ -109,6 +109,11 @@ def coupled_constructs(ctx):
     out.append(("1HPX-asp25B-at-chain-start", C.join(cut), []))
     cutf = a + [C.TER] + [ln for ln in b if int(ln[22:26]) >= 25] + [C.TER]
     out.append(("asp-pair-asp25B-at-chain-start", C.join(cutf), []))
+    # a coupled pair whose residues carry different insertion codes (His 57 / Asp 102 of 3SGB, Asp renumbered 102A)
+    sg = C.body(C.test_pdb_text("3SGB-subset"))
+    ids102 = [C.resid(ln) for ln in sg if C.is_atom(ln) and ln[17:20] == "ASP" and C.resid(ln)[1] == 102]
+    if ids102:
+        out.append(("3SGB-subset-ASP102A", C.join(C.relabel_residues(sg, {ids102[0]: (ids102[0][0], 102, "A")})), []))
     # the same under the optional settings of covalent coupling (shared determinants, penalised groups kept)
     from . import c04
     for tag in (("shared+keep", "ccc+shared+keep") if ctx.thorough() else ("shared+keep",)):
